@@ -52,6 +52,20 @@ class AsyncGeneratorType:
   pass
 
 
+def _type_key(pyval):
+  """The types of a constant and, recursively, of the constants it contains.
+
+  Python equates 1 == 1.0 == True (with equal hashes), so a cache keyed on the
+  value of a constant alone would mix up e.g. (1, 2) and (1.0, 2.0).
+  """
+  if pyval.__class__ is tuple:
+    return (tuple, tuple(_type_key(v) for v in pyval))
+  elif pyval.__class__ is frozenset:
+    return (frozenset, frozenset((v, _type_key(v)) for v in pyval))
+  else:
+    return type(pyval)
+
+
 class Converter(utils.ContextWeakrefMixin):
   """Functions for creating the classes in abstract.py."""
 
@@ -584,11 +598,7 @@ class Converter(utils.ContextWeakrefMixin):
       The converted constant. (Instance of BaseValue)
     """
     node = node or self.ctx.root_node
-    if pyval.__class__ is tuple:
-      type_key = tuple(type(v) for v in pyval)
-    else:
-      type_key = type(pyval)
-    key = ("constant", pyval, type_key)
+    key = ("constant", pyval, _type_key(pyval))
     if key in self._convert_cache:
       if self._convert_cache[key] is None:
         self._convert_cache[key] = self.unsolvable
